@@ -572,3 +572,281 @@ Proof.
   intros h t. unfold ex_lookup. destruct (N.eqb h 2); [intro H; inversion H; discriminate|].
   destruct (N.eqb h 3); [intro H; inversion H; discriminate|discriminate].
 Qed.
+
+(* ------------------------------------------------------------------ *)
+(* per-call chain faults                                                *)
+(* ------------------------------------------------------------------ *)
+Definition ok_upto (l : list bool) (n : nat) : Prop := forall k, (k < n)%nat -> bad l k = false.
+
+Lemma any_bad_false (l : list bool) : forall n, any_bad l n = false <-> ok_upto l n.
+Proof.
+  unfold any_bad, ok_upto, bad.
+  induction l as [|a l IH]; intros n.
+  - rewrite firstn_nil. cbn. split; [|reflexivity]. intros _ k _. destruct k; reflexivity.
+  - destruct n as [|n]; cbn [firstn existsb].
+    + split; [|reflexivity]. intros _ k Hk. lia.
+    + rewrite orb_false_iff, IH. split.
+      * intros [Ha Hl] k Hk. destruct k as [|k]; cbn [nth]; [exact Ha|]. apply Hl. lia.
+      * intros H. split; [exact (H 0%nat ltac:(lia))|].
+        intros k Hk. exact (H (S k) ltac:(lia)).
+Qed.
+
+Lemma any_bad_hit (l : list bool) n k : (k < n)%nat -> bad l k = true -> any_bad l n = true.
+Proof.
+  intros Hk Hb. destruct (any_bad l n) eqn:E; [reflexivity|].
+  apply any_bad_false in E. rewrite (E k Hk) in Hb. discriminate.
+Qed.
+
+Lemma ok_upto_0 l : ok_upto l 0.
+Proof. intros k Hk. lia. Qed.
+
+Lemma ok_upto_S l n : ok_upto l n -> bad l n = false -> ok_upto l (S n).
+Proof.
+  intros H Hb k Hk. destruct (Nat.eq_dec k n) as [->|Hne]; [exact Hb|]. apply H. lia.
+Qed.
+
+Lemma any_bad_0 l : any_bad l 0 = false.
+Proof. reflexivity. Qed.
+
+Lemma any_bad_1 l : any_bad l 1 = bad l 0.
+Proof. destruct l as [|b t]; [reflexivity|]. unfold any_bad, bad. cbn. apply orb_false_r. Qed.
+
+Section PF.
+  Variable hash : utxo -> N.
+  Variable lookup : N -> option tx.
+  Variable is_dep is_req : N * N -> look.
+  Variable F : script.
+
+  Definition ok3 (k : nat * nat * nat) : Prop :=
+    let '(kt, kd, kr) := k in
+    ok_upto (f_tx F) kt /\ ok_upto (f_dep F) kd /\ ok_upto (f_req F) kr.
+  Definition hit3 (k : nat * nat * nat) : Prop :=
+    let '(kt, kd, kr) := k in
+    any_bad (f_tx F) kt = true \/ any_bad (f_dep F) kd = true \/ any_bad (f_req F) kr = true.
+
+  (* one loop body: either no consulted call failed and the outcome is the one of the
+     fault-free body, or a consulted call failed and the body reports a chain error *)
+  Lemma classify_f_cases u k c k' :
+    ok3 k -> classify_f lookup is_dep is_req F u k = (c, k') ->
+    (ok3 k' /\ c = classify lookup is_dep is_req u) \/ (hit3 k' /\ c = BrokenChain).
+  Proof.
+    destruct k as [[kt kd] kr]. intros [Ht [Hd Hr]]. unfold classify_f, classify.
+    destruct (negb (N.eqb (u_idx u) 0)).
+    { intros E; inversion E; subst. left. split; [repeat split; assumption|reflexivity]. }
+    destruct (bad (f_tx F) kt) eqn:Bt.
+    { intros E; inversion E; subst. right. split; [|reflexivity].
+      left. apply (any_bad_hit _ _ kt); [lia|exact Bt]. }
+    pose proof (ok_upto_S _ _ Ht Bt) as Ht'.
+    destruct (lookup (u_tx u)) as [t|].
+    2:{ intros E; inversion E; subst. left. split; [repeat split; assumption|reflexivity]. }
+    destruct (t_in0 t) as [op|].
+    2:{ intros E; inversion E; subst. left. split; [repeat split; assumption|reflexivity]. }
+    destruct (bad (f_dep F) kd) eqn:Bd.
+    { intros E; inversion E; subst. right. split; [|reflexivity].
+      right; left. apply (any_bad_hit _ _ kd); [lia|exact Bd]. }
+    pose proof (ok_upto_S _ _ Hd Bd) as Hd'.
+    destruct (is_dep op).
+    1,3: intros E; inversion E; subst; left; split; [repeat split; assumption|reflexivity].
+    destruct (bad (f_req F) kr) eqn:Br.
+    { intros E; inversion E; subst. right. split; [|reflexivity].
+      right; right. apply (any_bad_hit _ _ kr); [lia|exact Br]. }
+    pose proof (ok_upto_S _ _ Hr Br) as Hr'.
+    destruct (is_req op); intros E; inversion E; subst; left;
+      (split; [repeat split; assumption|reflexivity]).
+  Qed.
+
+  Lemma fresh_scan_f_cases all : forall k r k',
+    ok3 k -> fresh_scan_f lookup is_dep is_req F all k = (r, k') ->
+    (ok3 k' /\ r = fresh_scan lookup is_dep is_req all) \/ (hit3 k' /\ r = SChainErr).
+  Proof.
+    induction all as [|u rest IH]; intros k r k' Hk; cbn [fresh_scan_f fresh_scan].
+    - intros E; inversion E; subst. left. split; [exact Hk|reflexivity].
+    - destruct (classify_f lookup is_dep is_req F u k) as [c k1] eqn:Ec.
+      destruct (classify_f_cases u k c k1 Hk Ec) as [[Hk1 Hc]|[Hh Hc]].
+      + rewrite <- Hc. destruct c.
+        * intros E. exact (IH k1 r k' Hk1 E).
+        * intros E; inversion E; subst. left. split; [exact Hk1|reflexivity].
+        * intros E; inversion E; subst. left. split; [exact Hk1|reflexivity].
+        * intros E; inversion E; subst. left. split; [exact Hk1|reflexivity].
+        * intros E; inversion E; subst. left. split; [exact Hk1|reflexivity].
+      + subst c. intros E; inversion E; subst. right. split; [exact Hh|reflexivity].
+  Qed.
+
+  Lemma faulted_calls w h c m t d r :
+    faulted F (Calls w h c m t d r) =
+    any_bad (f_wallet F) w || any_bad (f_hist F) h || any_bad (f_conf F) c || any_bad (f_mem F) m
+    || any_bad (f_tx F) t || any_bad (f_dep F) d || any_bad (f_req F) r.
+  Proof. reflexivity. Qed.
+
+  (* the sync check under faults: either every consulted call succeeded and the result is the
+     one of the fault-free run, or a consulted call failed and the check reports a chain error *)
+  Theorem sync_f_cases main conf mem r c :
+    sync_f lookup is_dep is_req F main conf mem = (r, c) ->
+    (faulted F c = false /\ r = sync lookup is_dep is_req main conf mem) \/
+    (faulted F c = true /\ r = SChainErr).
+  Proof.
+    unfold sync_f, sync.
+    destruct (bad (f_conf F) 0) eqn:Bc.
+    { intros E; inversion E; subst. right. split; [|reflexivity].
+      rewrite faulted_calls, !any_bad_0, any_bad_1, Bc. reflexivity. }
+    destruct conf as [cu|].
+    2:{ intros E; inversion E; subst. left. split; [|reflexivity].
+        rewrite faulted_calls, !any_bad_0, any_bad_1, Bc. reflexivity. }
+    destruct main as [m|].
+    { intros E; inversion E; subst. left. split; [|reflexivity].
+      rewrite faulted_calls, !any_bad_0, any_bad_1, Bc. reflexivity. }
+    destruct (bad (f_mem F) 0) eqn:Bm.
+    { intros E; inversion E; subst. right. split; [|reflexivity].
+      rewrite faulted_calls, !any_bad_0, !any_bad_1, Bc, Bm. reflexivity. }
+    destruct mem as [mu|].
+    2:{ intros E; inversion E; subst. left. split; [|reflexivity].
+        rewrite faulted_calls, !any_bad_0, !any_bad_1, Bc, Bm. reflexivity. }
+    destruct (fresh_scan_f lookup is_dep is_req F (cu ++ mu) (0, 0, 0)%nat) as [r0 [[kt kd] kr]] eqn:Ef.
+    intros E; inversion E; subst.
+    assert (H0 : ok3 (0, 0, 0)%nat) by (repeat split; apply ok_upto_0).
+    destruct (fresh_scan_f_cases _ _ _ _ H0 Ef) as [[[Ht [Hd Hr]] Hres]|[Hh Hres]].
+    - left. split; [|exact Hres].
+      rewrite faulted_calls, !any_bad_0, !any_bad_1, Bc, Bm.
+      apply any_bad_false in Ht, Hd, Hr. rewrite Ht, Hd, Hr. reflexivity.
+    - right. split; [|exact Hres].
+      rewrite faulted_calls. destruct Hh as [H|[H|H]]; rewrite H;
+        repeat rewrite orb_true_r; reflexivity.
+  Qed.
+
+  (* THE theorem of the strengthening: over all fault scripts, a passing sync check consulted
+     only calls that succeeded, and the wallet is in sync *)
+  Theorem sync_f_pass main conf mem c :
+    sync_f lookup is_dep is_req F main conf mem = (SOk, c) ->
+    faulted F c = false /\ sync lookup is_dep is_req main conf mem = SOk.
+  Proof.
+    intros E. destruct (sync_f_cases _ _ _ _ _ E) as [[Hf Hr]|[_ Hr]]; [|discriminate].
+    split; [exact Hf|symmetry; exact Hr].
+  Qed.
+
+  Theorem sync_f_pass_in_sync main conf mem c :
+    sync_f lookup is_dep is_req F main conf mem = (SOk, c) ->
+    faulted F c = false /\
+    exists cu, conf = Some cu /\
+      match main with
+      | Some m => In m cu
+      | None => exists mu, mem = Some mu /\
+                           forall u, In u (cu ++ mu) -> clean lookup is_dep is_req u
+      end.
+  Proof.
+    intros E. destruct (sync_f_pass _ _ _ _ E) as [Hf Hs]. split; [exact Hf|].
+    pose proof (sync_sound lookup is_dep is_req main conf mem) as Hsp. rewrite Hs in Hsp.
+    unfold sync_spec in Hsp. destruct conf as [cu|]; [|congruence].
+    exists cu. split; [reflexivity|]. destruct main as [m|].
+    - apply Hsp. reflexivity.
+    - destruct mem as [mu|]; [|congruence]. exists mu. split; [reflexivity|].
+      apply Hsp. reflexivity.
+  Qed.
+
+  Lemma faulted_no_faults c : faulted no_faults c = false.
+  Proof.
+    destruct c as [w h c m t d r]. unfold faulted, any_bad, no_faults. cbn.
+    rewrite !firstn_nil. reflexivity.
+  Qed.
+
+  (* ---- DetermineWalletMainUtxo under faults ---- *)
+  Lemma scan_txs_f_cases pkh reg hs : forall kt r kt',
+    ok_upto (f_tx F) kt -> scan_txs_f hash lookup F pkh reg hs kt = (r, kt') ->
+    (ok_upto (f_tx F) kt' /\ r = scan_txs hash lookup pkh reg hs) \/
+    (any_bad (f_tx F) kt' = true /\ r = DChainErr).
+  Proof.
+    induction hs as [|h rest IH]; intros kt r kt' Hk; cbn [scan_txs_f scan_txs].
+    - intros E; inversion E; subst. left. split; [exact Hk|reflexivity].
+    - destruct (bad (f_tx F) kt) eqn:Bt.
+      { intros E; inversion E; subst. right. split; [|reflexivity].
+        apply (any_bad_hit _ _ kt); [lia|exact Bt]. }
+      pose proof (ok_upto_S _ _ Hk Bt) as Hk'.
+      destruct (lookup h) as [t|].
+      2:{ intros E; inversion E; subst. left. split; [exact Hk'|reflexivity]. }
+      destruct (scan_outs hash pkh reg t 0 (t_outs t)) as [u|].
+      + intros E; inversion E; subst. left. split; [exact Hk'|reflexivity].
+      + intros E. exact (IH _ _ _ Hk' E).
+  Qed.
+
+  Theorem determine_f_cases pkh wallet hashes r c :
+    determine_f hash lookup F pkh wallet hashes = (r, c) ->
+    (faulted F c = false /\ r = determine hash lookup pkh wallet hashes) \/
+    (faulted F c = true /\ r = DChainErr).
+  Proof.
+    unfold determine_f, determine.
+    destruct (bad (f_wallet F) 0) eqn:Bw.
+    { intros E; inversion E; subst. right. split; [|reflexivity].
+      rewrite faulted_calls, !any_bad_0, any_bad_1, Bw. reflexivity. }
+    destruct wallet as [reg|].
+    2:{ intros E; inversion E; subst. left. split; [|reflexivity].
+        rewrite faulted_calls, !any_bad_0, any_bad_1, Bw. reflexivity. }
+    destruct (N.eqb reg 0).
+    { intros E; inversion E; subst. left. split; [|reflexivity].
+      rewrite faulted_calls, !any_bad_0, any_bad_1, Bw. reflexivity. }
+    destruct (bad (f_hist F) 0) eqn:Bh.
+    { intros E; inversion E; subst. right. split; [|reflexivity].
+      rewrite faulted_calls, !any_bad_0, !any_bad_1, Bw, Bh. reflexivity. }
+    destruct hashes as [hs|].
+    2:{ intros E; inversion E; subst. left. split; [|reflexivity].
+        rewrite faulted_calls, !any_bad_0, !any_bad_1, Bw, Bh. reflexivity. }
+    destruct (scan_txs_f hash lookup F pkh reg (rev hs) 0) as [r0 kt] eqn:Es.
+    intros E; inversion E; subst.
+    destruct (scan_txs_f_cases _ _ _ _ _ _ (ok_upto_0 _) Es) as [[Hk Hres]|[Hh Hres]].
+    - left. split; [|exact Hres].
+      rewrite faulted_calls, !any_bad_0, !any_bad_1, Bw, Bh.
+      apply any_bad_false in Hk. rewrite Hk. reflexivity.
+    - right. split; [|exact Hres].
+      rewrite faulted_calls, Hh. repeat rewrite orb_true_r. reflexivity.
+  Qed.
+
+  (* ---- the executable forms ---- *)
+  Theorem sync_ok_f_sound c main conf mem r :
+    sync_ok_f lookup is_dep is_req F c main conf mem r = true ->
+    (r = SOk -> faulted F c = false) /\
+    (faulted F c = false -> sync_spec lookup is_dep is_req main conf mem r).
+  Proof.
+    unfold sync_ok_f. destruct (faulted F c).
+    - intros H. split; [intros ->; discriminate|discriminate].
+    - intros H. split; [reflexivity|]. intros _. apply sync_ok_sound. exact H.
+  Qed.
+
+  Theorem det_ok_f_sound c pkh wallet hashes r :
+    det_ok_f hash lookup F c pkh wallet hashes r = true ->
+    (r = DChainErr /\ faulted F c = true) \/ det_spec hash lookup pkh wallet hashes r.
+  Proof.
+    unfold det_ok_f. intros H. apply orb_true_iff in H. destruct H as [H|H].
+    - left. destruct r; try discriminate. split; [reflexivity|exact H].
+    - right. apply det_ok_sound. exact H.
+  Qed.
+
+  Theorem faulty_model_passes pkh wallet hashes main conf mem :
+    txs_have_inputs lookup ->
+    (let (r, c) := determine_f hash lookup F pkh wallet hashes in
+     det_ok_f hash lookup F c pkh wallet hashes r = true) /\
+    (let (r, c) := sync_f lookup is_dep is_req F main conf mem in
+     sync_ok_f lookup is_dep is_req F c main conf mem r = true).
+  Proof.
+    intros Hin. split.
+    - destruct (determine_f hash lookup F pkh wallet hashes) as [r c] eqn:E.
+      unfold det_ok_f. destruct (determine_f_cases _ _ _ _ _ E) as [[Hf Hr]|[Hf Hr]]; subst r.
+      + rewrite determine_passes. apply orb_true_r.
+      + rewrite Hf. reflexivity.
+    - destruct (sync_f lookup is_dep is_req F main conf mem) as [r c] eqn:E.
+      unfold sync_ok_f. destruct (sync_f_cases _ _ _ _ _ E) as [[Hf Hr]|[Hf Hr]]; subst r; rewrite Hf.
+      + apply sync_passes. exact Hin.
+      + reflexivity.
+  Qed.
+End PF.
+
+(* a fault at the deposit lookup of the wallet's own sweep: the check reports a chain error;
+   one position later (not consulted) the fault changes nothing *)
+Example faulty_example :
+  let dep := fun op : N * N => if N.eqb (fst op) 9 then LFound else LNotFound in
+  let all := Some [ {| u_tx := 2; u_idx := 0; u_val := 5000 |} ] in
+  let Fd := {| f_wallet := []; f_hist := []; f_conf := []; f_mem := []; f_tx := [];
+               f_dep := [true]; f_req := [] |} in
+  let Fl := {| f_wallet := []; f_hist := []; f_conf := []; f_mem := []; f_tx := [];
+               f_dep := [false; true]; f_req := [] |} in
+  sync_f ex_lookup dep (fun _ => LNotFound) Fd None all (Some []) = (SChainErr, Calls 0 0 1 1 1 1 0)
+  /\ sync_f ex_lookup dep (fun _ => LNotFound) Fl None all (Some []) = (SErrDepositSweep, Calls 0 0 1 1 1 1 0)
+  /\ sync_f ex_lookup (fun _ => LNotFound) (fun _ => LNotFound) Fl None all (Some []) = (SOk, Calls 0 0 1 1 1 1 1).
+Proof. vm_compute. repeat split; reflexivity. Qed.
